@@ -53,3 +53,17 @@ def texvm_selftest(ctx):
             return e
         return None
     selftest_calls(ctx, "output-corrupted", "Trace_TexVM", "Trace_TexVM.cfg", ev, corrupt)
+
+
+def texvm_consistency(ctx, which):
+    """TLC alone: the composed model agrees with the component specification it subsumes on the component's
+    whole (bounded) domain, so verdicts of the two bindings cannot contradict each other."""
+    sfx = "" if ctx.quick else "_thorough"
+    if which == "cond":
+        tlc_model(ctx, "TexVM.agrees_with_TexCond", "MC_TexVM_Cond", f"MC_TexVM_Cond{sfx}.cfg",
+                  workers=6 if ctx.quick else 14, coverage=False, timeout=3000)
+        tlc_expect_refuted("MC_TexVM_Cond", "NEG_TexVM_Cond_vacuity.cfg", "no well-formed conditional delivers anything", workers=3)
+    else:
+        tlc_model(ctx, "TexVM.agrees_with_TexMacro", "MC_TexVM_Macro", f"MC_TexVM_Macro{sfx}.cfg",
+                  workers=6 if ctx.quick else 14, coverage=False, timeout=3000)
+        tlc_expect_refuted("MC_TexVM_Macro", "NEG_TexVM_Macro_vacuity.cfg", "no two-parameter call binds", workers=3)
